@@ -4,4 +4,8 @@ CONSTANTS
   MaxLen = 9
   ChunkLens = {2, 3}
   Deltas = {1, 3}
+  MaxXfers = 1
+  Servers = {"cl", "nocl", "flushed", "close", "clsrc", "redirect"}
+  Musts = {FALSE}
+  ResetOnRefusal = TRUE
 INVARIANTS Emit
